@@ -150,46 +150,7 @@ func (p *concPkg) callName(c *ast.CallExpr, env map[string]string) string {
 	return "?"
 }
 
-func (p *concPkg) closure(entry string) (fields []string, chops [][3]string) {
-	seen := map[string]bool{}
-	fs := map[string]bool{}
-	var walk func(n string)
-	walk = func(n string) {
-		if seen[n] {
-			return
-		}
-		seen[n] = true
-		cf := p.funcs[n]
-		if cf == nil {
-			return
-		}
-		for f := range cf.fields {
-			fs[f] = true
-		}
-		for _, c := range cf.chops {
-			chops = append(chops, [3]string{n, c[0], c[1]})
-		}
-		for c := range cf.calls {
-			c = strings.TrimSuffix(c, "?closure")
-			walk(c)
-		}
-	}
-	walk(entry)
-	for f := range fs {
-		fields = append(fields, f)
-	}
-	sort.Strings(fields)
-	sort.Slice(chops, func(i, j int) bool { return fmt.Sprint(chops[i]) < fmt.Sprint(chops[j]) })
-	return
-}
-
-func genConc(root, outdir string) {
-	files := []string{"pfcp.go", "transaction.go", "node.go", "session.go", "report.go", "association.go", "heartbeat.go", "dispacher.go"}
-	p := &concPkg{structs: map[string]map[string]string{}, funcs: map[string]*concFunc{}, methods: map[string]bool{}}
-	var parsed []*ast.File
-	for _, f := range files {
-		parsed = append(parsed, parse(root, filepath.Join("internal/pfcp", f)))
-	}
+func (p *concPkg) load(parsed []*ast.File) {
 	for _, f := range parsed {
 		for _, d := range f.Decls {
 			gd, ok := d.(*ast.GenDecl)
@@ -247,6 +208,80 @@ func genConc(root, outdir string) {
 			p.analyse(name, fd.Body, env)
 		}
 	}
+}
+
+func (p *concPkg) closure(entry string) (fields []string, chops [][3]string) {
+	seen := map[string]bool{}
+	fs := map[string]bool{}
+	var walk func(n string)
+	walk = func(n string) {
+		if seen[n] {
+			return
+		}
+		seen[n] = true
+		cf := p.funcs[n]
+		if cf == nil {
+			return
+		}
+		for f := range cf.fields {
+			fs[f] = true
+		}
+		for _, c := range cf.chops {
+			chops = append(chops, [3]string{n, c[0], c[1]})
+		}
+		for c := range cf.calls {
+			c = strings.TrimSuffix(c, "?closure")
+			walk(c)
+		}
+	}
+	walk(entry)
+	for f := range fs {
+		fields = append(fields, f)
+	}
+	sort.Strings(fields)
+	sort.Slice(chops, func(i, j int) bool { return fmt.Sprint(chops[i]) < fmt.Sprint(chops[j]) })
+	return
+}
+
+func loadConcPkg(root, dir string, files []string) *concPkg {
+	p := &concPkg{structs: map[string]map[string]string{}, funcs: map[string]*concFunc{}, methods: map[string]bool{}}
+	var parsed []*ast.File
+	for _, f := range files {
+		parsed = append(parsed, parse(root, filepath.Join(dir, f)))
+	}
+	p.load(parsed)
+	return p
+}
+
+// genPerioConc: every channel operation of the periodic-report server with its blocking mode (C18)
+func genPerioConc(root, outdir string) {
+	p := loadConcPkg(root, "internal/forwarder/perio", []string{"server.go"})
+	o := &out{}
+	o.b.WriteString(header)
+	o.p("(* source: internal/forwarder/perio/server.go - channel operations: (function, channel, mode) *)")
+	var names []string
+	for n := range p.funcs {
+		names = append(names, n)
+	}
+	sort.Strings(names)
+	var rows []string
+	for _, n := range names {
+		ops := append([][2]string{}, p.funcs[n].chops...)
+		sort.Slice(ops, func(i, j int) bool { return fmt.Sprint(ops[i]) < fmt.Sprint(ops[j]) })
+		for _, op := range ops {
+			rows = append(rows, fmt.Sprintf("  (%s, %s, %s)", coqStr(n), coqStr(op[0]), coqStr(op[1])))
+		}
+	}
+	if len(rows) == 0 {
+		die("internal/forwarder/perio/server.go: no channel operations found")
+	}
+	o.p("Definition perio_chanops : list (string * string * string) := [\n%s\n].", strings.Join(rows, ";\n"))
+	writeIfChanged(filepath.Join(outdir, "PerioConcGen.v"), o.b.String())
+}
+
+func genConc(root, outdir string) {
+	files := []string{"pfcp.go", "transaction.go", "node.go", "session.go", "report.go", "association.go", "heartbeat.go", "dispacher.go"}
+	p := loadConcPkg(root, "internal/pfcp", files)
 	need := []string{"PfcpServer.main", "PfcpServer.receiver", "PfcpServer.NotifySessReport", "PfcpServer.NotifyTransTimeout",
 		"PfcpServer.Stop", "TxTransaction.startTimer$1", "RxTransaction.startTimer$1"}
 	for _, n := range need {
@@ -324,4 +359,4 @@ func genConc(root, outdir string) {
 	writeIfChanged(filepath.Join(outdir, "ConcGen.v"), o.b.String())
 }
 
-func init() { extraGenerators = append(extraGenerators, genConc) }
+func init() { extraGenerators = append(extraGenerators, genConc, genPerioConc) }
